@@ -23,6 +23,59 @@ def _outcome(rng):
     return "never"
 
 
+def _entry(rng, shared, private_multi=False):
+    """construction paths and handles (ENTRYPOINT_BRIEF): how many services are built from the one layer value, through
+    which builder constructor, with listeners / a name or not, and on which handle of a service each call is made.
+    None of it changes what ONE store does, except `private_multi`: a plain `CacheLayer` (shared=0) builds a store per
+    service, so scenarios that aim with a single reference store must not ask for it.
+    -> (header words, svc(): the ` svc=… h=… lc=…` words of one arrive, listen)"""
+    if shared == 0:
+        nsvc = rng.choice([2, 2, 3]) if (private_multi and rng.random() < 0.4) else 1
+    else:
+        nsvc = rng.choice([2, 2, 2, 3])
+    words = []
+    if (shared == 0 and nsvc > 1) or (shared != 0 and (nsvc != 2 or rng.random() < 0.3)):
+        words.append("nsvc=%d" % nsvc)
+    listen = rng.random() < 0.25
+    if listen:
+        words.append("listen=1")
+    if rng.random() < 0.15:
+        words.append("name=" + rng.choice(["c1", "users", "x-y"]))
+    v = rng.random()
+    if v < 0.12:
+        words.append("via=new")
+    elif v < 0.24:
+        words.append("via=default")
+    hmode = rng.choice(["fresh", "fresh", "mixed", "mixed", "own", "reuse"])
+
+    def svc():
+        w = ""
+        if nsvc > 1:
+            k = rng.randrange(nsvc)
+            if rng.random() < 0.05:
+                k += nsvc                         # the service index is taken modulo the number of services
+            w = " svc=%d" % k
+        r = rng.random()
+        if hmode == "own" or (hmode == "mixed" and r < 0.25):
+            w += " h=0"                           # the service value `layer()` returned, again and again
+        elif hmode == "reuse" or (hmode == "mixed" and r < 0.6):
+            w += " h=%d" % rng.randint(1, 2)      # a clone of it taken once and then reused
+        if nsvc > 1 and rng.random() < 0.3:
+            w += " lc=1"                          # (at the first use of a service) build it from a clone of the layer value
+        return w
+    return ("".join(" " + x for x in words)), svc, listen
+
+
+def _pol(rng, policy):
+    """the ` policy=…` header word; LRU is the builder's documented default: sometimes `eviction_policy` is not called"""
+    return "" if policy == "lru" and rng.random() < 0.4 else " policy=%s" % policy
+
+
+def _probe(rng, ops, listen, p=0.08):
+    if listen and rng.random() < p:
+        ops.append("probe events")
+
+
 def gen_expired_refresh_fails(rng, tier):
     """an entry expires, the refresh of that key fails (or is cancelled) so it is never re-inserted, the cache
     refills with entries that are used more often, then one more key arrives: size bound and victim choice"""
@@ -30,15 +83,16 @@ def gen_expired_refresh_fails(rng, tier):
     mx = rng.choice([1, 2, 2, 3])
     ttl = rng.choice([5, 10])
     shared = rng.choice([0, 0, 1])
-    header = "cache max=%d policy=%s ttl=%d shared=%d" % (mx, policy, ttl, shared)
+    extra, svcw, listen = _entry(rng, shared)
+    header = "cache max=%d%s ttl=%d shared=%d" % (mx, _pol(rng, policy), ttl, shared) + extra
     ops = []
     c = [0]
 
     def call(key, out="ok", lat=0):
         c[0] += 1
-        svc = "" if shared == 0 else " svc=%d" % rng.randint(0, 1)
-        ops.append("arrive %d key=%d%s inner=%d:%s" % (c[0], key, svc, lat, out))
+        ops.append("arrive %d key=%d%s inner=%d:%s" % (c[0], key, svcw(), lat, out))
         ops.append("poll %d" % c[0])
+        _probe(rng, ops, listen)
         return c[0]
     call(1)                                   # key 1 cached (count 1)
     if rng.random() < 0.5:
@@ -55,6 +109,7 @@ def gen_expired_refresh_fails(rng, tier):
     for k in range(2, 3 + mx):                # who is still there?
         call(k)
     ops.append("settle")
+    _probe(rng, ops, listen, 1.0)
     return {"header": header, "ops": ops}
 
 
@@ -71,7 +126,8 @@ def gen_expiry_restore_evict(rng, tier):
     us = rng.random() < 0.15                     # tick = 1 us: staggered sub-millisecond stamps, 'just expired' = by 1 us
     ttl = _us_ttl(rng, lo=2) if us else rng.choice([10, 20, rng.randint(6, 40)])
     shared = rng.choice([0, 0, 1, 2])
-    header = "cache max=%d policy=%s ttl=%d shared=%d" % (mx, policy, ttl, shared) + (" tick=us" if us else "")
+    extra, svcw, listen = _entry(rng, shared)
+    header = "cache max=%d%s ttl=%d shared=%d" % (mx, _pol(rng, policy), ttl, shared) + extra + (" tick=us" if us else "")
     ref = _Ref(policy, mx, ttl)
     w = {"st": (), "now": 0, "c": 0, "nextkey": mx + 1}
     ops = []
@@ -79,14 +135,14 @@ def gen_expiry_restore_evict(rng, tier):
 
     def arrive(key, lat, out):
         w["c"] += 1
-        svc = "" if shared == 0 else " svc=%d" % rng.randint(0, 1)
-        ops.append("arrive %d key=%d%s inner=%d:%s" % (w["c"], key, svc, lat, out))
+        ops.append("arrive %d key=%d%s inner=%d:%s" % (w["c"], key, svcw(), lat, out))
         hit, w["st"] = ref.get(w["st"], key, w["now"])
         return w["c"], hit
 
     def request(key, out="ok"):
         c, hit = arrive(key, 0, out)
         ops.append("poll %d" % c)
+        _probe(rng, ops, listen, 0.05)
         if not hit and out == "ok":
             w["st"] = ref.insert(w["st"], key, w["now"])[0][0]
 
@@ -144,11 +200,14 @@ def gen_expiry_restore_evict(rng, tier):
     ops.append("settle")
     readback()
     ops.append("settle")
+    _probe(rng, ops, listen, 1.0)
     return {"header": header, "ops": ops}
 
 
 def _us_ttl(rng, lo=1):
     """a TTL in microsecond ticks: whole milliseconds, milliseconds + a fraction, below one millisecond, around a boundary"""
+    if lo == 0 and rng.random() < 0.07:
+        return 0                                  # `Duration::ZERO`: every entry of positive age has expired
     r = rng.random()
     if r < 0.35:
         t = rng.randint(1, 8) * 1000
@@ -184,10 +243,11 @@ def gen_subms_ttl(rng, tier):
     millisecond, at the millisecond boundaries around it. The generator follows the reference store only to aim."""
     policy = rng.choice(["lru", "lfu", "fifo"])
     mx = rng.choice([1, 2, 2, 3, 4])
-    ttl = _us_ttl(rng)
+    ttl = _us_ttl(rng, lo=0)
     shared = rng.choice([0, 0, 1, 2])
     nkeys = mx + rng.choice([0, 0, 1])
-    header = "cache max=%d policy=%s ttl=%d shared=%d tick=us" % (mx, policy, ttl, shared)
+    extra, svcw, listen = _entry(rng, shared)
+    header = "cache max=%d%s ttl=%d shared=%d" % (mx, _pol(rng, policy), ttl, shared) + extra + " tick=us"
     ref = _Ref(policy, mx, ttl)
     w = {"st": (), "now": 0, "c": 0}
     ops = []
@@ -199,11 +259,11 @@ def gen_subms_ttl(rng, tier):
 
     def request(key, out="ok", delay=0):
         w["c"] += 1
-        svc = "" if shared == 0 else " svc=%d" % rng.randint(0, 1)
-        ops.append("arrive %d key=%d%s inner=0:%s" % (w["c"], key, svc, out))
+        ops.append("arrive %d key=%d%s inner=0:%s" % (w["c"], key, svcw(), out))
         hit, w["st"] = ref.get(w["st"], key, w["now"])
         adv(delay)                                # a miss is stored at the instant of its completion = of this poll
         ops.append("poll %d" % w["c"])
+        _probe(rng, ops, listen, 0.05)
         if not hit and out == "ok":
             w["st"] = ref.insert(w["st"], key, w["now"])[0][0]
 
@@ -223,6 +283,7 @@ def gen_subms_ttl(rng, tier):
         for x in others[:rng.randint(0, 2)]:      # the other entries, at whatever age they have now
             request(x)
     ops.append("settle")
+    _probe(rng, ops, listen, 1.0)
     return {"header": header, "ops": ops}
 
 
@@ -238,7 +299,12 @@ def gen_big_cache(rng, tier):
     mx = rng.choice([9, 12, 16, 20, 24, 28, 32, 36, 40, rng.randint(9, 40), rng.randint(17, 40)])
     ttl = rng.choice([None, None, None, rng.choice([40, 80, 150])])
     shared = rng.choice([0, 0, 1, 2])
-    header = "cache max=%d policy=%s" % (mx, policy) + ("" if ttl is None else " ttl=%d" % ttl) + " shared=%d" % shared
+    extra, svcw, listen = _entry(rng, shared)
+    dflt_max = rng.random() < 0.08               # no `max_size` call: the builder's documented default, 100 entries
+    if dflt_max:
+        mx = 100
+    header = ("cache" + ("" if dflt_max else " max=%d" % mx) + _pol(rng, policy)
+              + ("" if ttl is None else " ttl=%d" % ttl) + " shared=%d" % shared + extra)
     ref = _Ref(policy, mx, ttl)
     w = {"st": (), "now": 0, "c": 0, "nextkey": mx + 1}
     ops = []
@@ -254,9 +320,9 @@ def gen_big_cache(rng, tier):
         """-> (hit, evicted key or None, number of allowed victims); with out="err1" it is a probe: a hit counts as a
         use, a miss reaches the inner service, which fails, so nothing is stored and nothing evicted"""
         w["c"] += 1
-        svc = "" if shared == 0 else " svc=%d" % rng.randint(0, 1)
-        ops.append("arrive %d key=%d%s inner=0:%s" % (w["c"], key, svc, out))
+        ops.append("arrive %d key=%d%s inner=0:%s" % (w["c"], key, svcw(), out))
         ops.append("poll %d" % w["c"])
+        _probe(rng, ops, listen, 0.02)
         hit, w["st"] = ref.get(w["st"], key, w["now"])
         if hit or out != "ok":
             return hit, None, 0
@@ -358,6 +424,47 @@ def gen_big_cache(rng, tier):
         else:
             request(k)
     ops.append("settle")
+    _probe(rng, ops, listen, 1.0)
+    return {"header": header, "ops": ops}
+
+
+def gen_ttl_zero(rng, tier):
+    """`ttl(Duration::ZERO)`: a TTL of zero is a TTL - an entry is served at the instant it was stored and has expired
+    as soon as the clock has moved at all (`elapsed() > 0`); it is NOT "no TTL". Requests over a few keys at the same
+    and at later instants (1 tick later, much later), 1 ms or 1 us ticks, every policy, private and shared stores,
+    concurrent misses, failing refreshes, evictions among entries that are all dead."""
+    policy = rng.choice(["lru", "lfu", "fifo"])
+    mx = rng.choice([1, 2, 2, 3, 4])
+    us = rng.random() < 0.4
+    shared = rng.choice([0, 0, 1, 2])
+    extra, svcw, listen = _entry(rng, shared)
+    header = "cache max=%d%s ttl=0 shared=%d" % (mx, _pol(rng, policy), shared) + extra + (" tick=us" if us else "")
+    nkeys = mx + rng.choice([0, 1, 1])
+    ops = []
+    c = 0
+    stored = []
+    for _ in range(rng.randint(4, 12)):
+        c += 1
+        key = rng.choice(stored[-2:]) if stored and rng.random() < 0.6 else rng.randint(1, nkeys)
+        out = "ok" if rng.random() < 0.85 else rng.choice(["err1", "panic"])
+        lat = 0 if us or rng.random() < 0.8 else rng.randint(1, 3)
+        ops.append("arrive %d key=%d%s inner=%d:%s" % (c, key, svcw(), lat, out))
+        if lat == 0 and rng.random() < 0.85:
+            ops.append("poll %d" % c)
+            if out == "ok":
+                stored.append(key)
+        _probe(rng, ops, listen)
+        r = rng.random()
+        if r < 0.35:
+            pass                                  # the next request comes at the same instant: a stored entry is still served
+        elif r < 0.65:
+            ops.append("adv 1")
+        else:
+            ops.append("adv %d" % rng.choice([1, 2, 5, 999, 1000, 1001] if us else [1, 2, 3, 10]))
+        if rng.random() < 0.15:
+            ops.append("settle")
+    ops.append("settle")
+    _probe(rng, ops, listen, 1.0)
     return {"header": header, "ops": ops}
 
 
@@ -371,19 +478,25 @@ def gen(rng, tier):
         return gen_subms_ttl(rng, tier)
     if r0 < 0.35:
         return gen_big_cache(rng, tier)
+    if r0 < 0.38:
+        return gen_ttl_zero(rng, tier)
     policy = rng.choice(["lru", "lfu", "fifo"])
     mx = rng.choice([1, 1, 2, 2, 2, 3, 3, 4])
     if rng.random() < 0.02:
         mx = 0                                   # degenerate: containers clamp (LRU -> 100, LFU/FIFO -> 1)
     ttl = rng.choice([None, None, rng.randint(1, 10), rng.choice([5, 10]), rng.randint(20, 60)])
+    if ttl is not None and rng.random() < 0.08:
+        ttl = 0                                  # `Duration::ZERO`: served at the instant of the store only
     us = rng.random() < 0.08                     # tick = 1 us: the same random walk at microsecond instants (inner latency 0,
     if us and ttl is not None:                   # completions are timed by late polls)
-        ttl = _us_ttl(rng)
+        ttl = _us_ttl(rng, lo=0)
     shared = rng.choice([0, 0, 1, 2])
     nkeys = max(1, min(6, mx + rng.choice([-1, 0, 1, 1, 2])))
     keys = list(range(1, nkeys + 1))
-    header = ("cache max=%d policy=%s" % (mx, policy) + ("" if ttl is None else " ttl=%d" % ttl) + " shared=%d" % shared
-              + (" tick=us" if us else ""))
+    extra, svcw, listen = _entry(rng, shared, private_multi=True)
+    dflt = rng.random() < 0.03                   # no `max_size` / `eviction_policy` call: the builder's defaults (100, LRU)
+    header = ("cache" + ("" if dflt else " max=%d%s" % (mx, _pol(rng, policy))) + ("" if ttl is None else " ttl=%d" % ttl)
+              + " shared=%d" % shared + extra + (" tick=us" if us else ""))
     ops = []
     now = 0
     marks = []          # instants worth visiting: completions, completions + ttl
@@ -408,8 +521,7 @@ def gen(rng, tier):
             lat = 0 if us else rng.choice([0, 0, 0, 0, 1, 3, 5, rng.randint(0, 20)])
         if out is None:
             out = _outcome(rng)
-        svc = "" if shared == 0 else " svc=%d" % rng.randint(0, 1)
-        ops.append("arrive %d key=%d%s inner=%d:%s" % (c, key, svc, lat, out))
+        ops.append("arrive %d key=%d%s inner=%d:%s" % (c, key, svcw(), lat, out))
         live.append(c)
         recent.append(key)
         if lat > 0:
@@ -445,6 +557,7 @@ def gen(rng, tier):
                 del inflight_keys[:]
         elif r < 0.97:
             ops.append("settle")
+            _probe(rng, ops, listen, 0.5)
         else:
             # degenerate stream: duplicate arrival, poll/drop of a caller that never existed
             ops.append(rng.choice(["arrive %d key=1 inner=0:ok" % rng.choice(live), "poll 999", "drop 998"]))
@@ -465,6 +578,7 @@ def gen(rng, tier):
         for k in order[:rng.randint(1, len(order))]:
             arrive(key=k, lat=0, out="ok", pollnow=True)
         ops.append("settle")
+    _probe(rng, ops, listen, 1.0)
     return {"header": header, "ops": ops}
 
 
@@ -472,11 +586,23 @@ def gen(rng, tier):
 
 def _cfg(case):
     cfg = kvs(case["header"])
-    mx = int(cfg.get("max", "1"))
-    policy = cfg.get("policy", "lru")
-    ttl = int(cfg["ttl"]) if "ttl" in cfg else None
+    mx = int(cfg.get("max", "100"))              # no `max=` word: `max_size` is not called, the builder's default applies
+    policy = cfg.get("policy", "lru")            # likewise (`EvictionPolicy::default()`)
+    ttl = int(cfg["ttl"]) if "ttl" in cfg else None      # `ttl=0` is a TTL of zero, not "no TTL"
     cap = mx if mx >= 1 else (100 if policy == "lru" else 1)
     return mx, cap, policy, ttl
+
+
+def _store_of(case):
+    """-> function: `svc` word of a request -> index of the store that request uses. A plain `CacheLayer` (shared=0)
+    builds one store per service (layer.rs: "Each call to layer() creates a new cache store"); a `SharedCacheLayer`
+    (shared=1, or shared=2: `CacheLayer::shared()`) has one store for all services built from it."""
+    cfg = kvs(case["header"])
+    shared = int(cfg.get("shared", "0"))
+    nsvc = max(1, int(cfg.get("nsvc", "1" if shared == 0 else "2")))
+    if shared != 0:
+        return lambda svc: 0
+    return lambda svc: int(svc) % nsvc
 
 
 def _events(lines):
@@ -510,36 +636,42 @@ def _events(lines):
             evs.append({"kind": "drop", "c": w[1], "k": int(w[2]), "t": t, "pos": i})
         elif w[0] == "result":
             evs.append({"kind": "result", "c": w[1], "res": w[2], "t": t, "pos": i})
+        elif w[0] == "probe" and len(w) >= 2 and w[1] == "events":
+            evs.append({"kind": "probe", "kv": dict(x.split("=", 1) for x in w[2:] if "=" in x), "t": t, "pos": i})
     return evs, complaint
 
 
 # ----------------------------------------------------------------------------- monitor 1: hits return the latest unexpired value of the right key
 
 def mon_hit_latest(case, lines, meta):
-    """reference: key -> (value, storedAt) of the latest Ok completion; needs no knowledge of victims"""
+    """reference, per store: key -> (value, storedAt) of the latest Ok completion; needs no knowledge of victims"""
     mx, cap, policy, ttl = _cfg(case)
+    store_of = _store_of(case)
     evs, complaint = _events(lines)
     if complaint:
         return complaint
-    latest = {}
-    history = {}        # key -> [values ever stored]
+    latest = {}         # (store, key) -> (value, storedAt)
+    history = {}        # (store, key) -> [values ever stored]
     caller = {}         # c -> lookup event (+ snapshot of the reference at lookup time)
     serial_key = {}
+    serial_store = {}
     ended = {}          # serial -> outcome
     for e in evs:
         if e["kind"] == "lookup":
-            e["snap"] = latest.get(e["key"])
+            e["store"] = store_of(e["svc"])
+            e["snap"] = latest.get((e["store"], e["key"]))
             caller[e["c"]] = e
             if not e["hit"]:
                 serial_key[e["serial"]] = e["key"]
+                serial_store[e["serial"]] = e["store"]
         elif e["kind"] == "done":
             ended[e["k"]] = e["out"]
             lk = caller.get(e["c"])
             if lk is None or lk["hit"] or lk["serial"] != e["k"]:
                 return "inner call %d completes for caller %s which never made it" % (e["k"], e["c"])
             if e["out"] == "ok":
-                latest[lk["key"]] = (e["k"], e["t"])
-                history.setdefault(lk["key"], []).append(e["k"])
+                latest[(lk["store"], lk["key"])] = (e["k"], e["t"])
+                history.setdefault((lk["store"], lk["key"]), []).append(e["k"])
         elif e["kind"] == "result":
             lk = caller.get(e["c"])
             if lk is None:
@@ -554,10 +686,13 @@ def mon_hit_latest(case, lines, meta):
                     return "caller %s: hit returns %d, the response of a failed inner call (errors must not be cached)" % (e["c"], v)
                 if v in serial_key and serial_key[v] != lk["key"]:
                     return "caller %s: hit for key %d returns %d, which was produced for key %d" % (e["c"], lk["key"], v, serial_key[v])
+                if v in serial_store and serial_store[v] != lk["store"]:
+                    return ("caller %s (service %s): hit for key %d returns %d, a response stored through another service built from the "
+                            "same plain CacheLayer value - each layer() call must have its own store" % (e["c"], lk["svc"], lk["key"], v))
                 if snap is None:
                     return "caller %s: hit for key %d at t=%d although nothing had been stored for that key" % (e["c"], lk["key"], lk["t"])
                 if v != snap[0]:
-                    old = "an older value of the key" if v in history.get(lk["key"], []) else "a value never stored for the key"
+                    old = "an older value of the key" if v in history.get((lk["store"], lk["key"]), []) else "a value never stored for the key"
                     return "caller %s: hit for key %d at t=%d returns %d (%s); the latest stored value is %d (t=%d)" % (
                         e["c"], lk["key"], lk["t"], v, old, snap[0], snap[1])
                 if ttl is not None and lk["t"] - snap[1] > ttl:
@@ -582,18 +717,20 @@ def mon_size(case, lines, meta):
     lookup; every store proves that its entry is in the store right afterwards. The number of distinct keys
     proved present at one point of the log must not exceed the capacity."""
     mx, cap, policy, ttl = _cfg(case)
+    store_of = _store_of(case)
     evs, complaint = _events(lines)
-    store_pos = {}     # value -> (key, position of its inner_done)
+    store_pos = {}     # value -> ((store, key), position of its inner_done)
     caller = {}
-    intervals = []     # (from, to, key)
+    intervals = []     # (from, to, (store, key))
     for e in evs:
         if e["kind"] == "lookup":
             caller[e["c"]] = e
         elif e["kind"] == "done" and e["out"] == "ok":
             lk = caller.get(e["c"])
             if lk is not None:
-                store_pos[e["k"]] = (lk["key"], e["pos"])
-                intervals.append((e["pos"], e["pos"], lk["key"]))
+                sk = (store_of(lk["svc"]), lk["key"])
+                store_pos[e["k"]] = (sk, e["pos"])
+                intervals.append((e["pos"], e["pos"], sk))
         elif e["kind"] == "result":
             lk = caller.get(e["c"])
             if lk is not None and lk["hit"] and e["res"].startswith("ok:"):
@@ -602,10 +739,12 @@ def mon_size(case, lines, meta):
                     intervals.append((store_pos[v][1], lk["pos"], store_pos[v][0]))
     points = sorted({a for a, _, _ in intervals} | {b for _, b, _ in intervals})
     for p in points:
-        present = {k for a, b, k in intervals if a <= p <= b}
-        if len(present) > cap:
-            return "at log line %d the keys %s are all in the cache (each is stored before and hit after that point): %d entries, max_size=%d" % (
-                p, sorted(present), len(present), mx)
+        here = {k for a, b, k in intervals if a <= p <= b}
+        for st in {s for s, _ in here}:
+            present = {k for s, k in here if s == st}
+            if len(present) > cap:
+                return "at log line %d the keys %s are all in the cache (each is stored before and hit after that point): %d entries, max_size=%d" % (
+                    p, sorted(present), len(present), mx)
     return None
 
 
@@ -658,13 +797,21 @@ def _policy_walk(case, lines):
     """runs the reference store(s) along the implementation log.
     -> (message or None, tags)"""
     mx, cap, policy, ttl = _cfg(case)
+    store_of = _store_of(case)
     evs, _ = _events(lines)
     ref = _Ref(policy, cap, ttl)
-    cands = {()}
+    allc = {}           # store index -> set of candidate states
     caller = {}
     tags = []
-    restored = set()    # keys whose expired entry was lazily removed at some point (a later store is a re-store)
+    allrestored = {}    # store index -> keys whose expired entry was lazily removed at some point (a later store is a re-store)
     for e in evs:
+        if e["kind"] in ("lookup", "done"):
+            lk0 = e if e["kind"] == "lookup" else caller.get(e["c"])
+            if lk0 is None:
+                continue
+            six = store_of(lk0["svc"])
+            cands = allc.get(six, {()})
+            restored = allrestored.setdefault(six, set())
         if e["kind"] == "lookup":
             caller[e["c"]] = e
             nxt = set()
@@ -684,7 +831,7 @@ def _policy_walk(case, lines):
                         "store then holds (key, inserted_at, count) = %s" % (policy, mx, ttl, e["c"], what, e["key"], e["t"], shown)), tags
             if len(nxt) < len({ref.get(st, e["key"], e["t"])[1] for st in cands}):
                 tags.append("lfu-candidates-pruned")
-            cands = nxt
+            allc[six] = nxt
         elif e["kind"] == "done" and e["out"] == "ok":
             lk = caller.get(e["c"])
             if lk is None:
@@ -701,7 +848,7 @@ def _policy_walk(case, lines):
                             tags.append("evict-after-expiry-restore")
                         if nallowed > 1:
                             tags.append("lfu-tie")
-            cands = nxt
+            allc[six] = nxt
     return None, tags
 
 
@@ -716,20 +863,72 @@ def mon_needless_miss(case, lines, meta):
     """as long as at most `capacity` distinct keys have ever been stored no eviction can have happened;
     a lookup of a key whose latest value is within its TTL must then hit"""
     mx, cap, policy, ttl = _cfg(case)
+    store_of = _store_of(case)
+    shared = int(kvs(case["header"]).get("shared", "0"))
     evs, _ = _events(lines)
-    latest = {}
+    alllatest = {}      # store index -> key -> (value, storedAt, svc word of the request that stored it)
     caller = {}
     for e in evs:
         if e["kind"] == "lookup":
             caller[e["c"]] = e
+            latest = alllatest.get(store_of(e["svc"]), {})
             snap = latest.get(e["key"])
             if not e["hit"] and snap is not None and len(latest) <= cap and (ttl is None or e["t"] - snap[1] <= ttl):
-                return "caller %s missed key %d at t=%d although value %d was stored at t=%d (ttl=%s) and only %d distinct keys were ever stored (max_size=%d)" % (
-                    e["c"], e["key"], e["t"], snap[0], snap[1], ttl, len(latest), mx)
+                how = ""
+                if shared != 0 and snap[2] != e["svc"]:
+                    how = " (stored through service %s of the same SharedCacheLayer value, requested on service %s: they must share the store)" % (snap[2], e["svc"])
+                return "caller %s missed key %d at t=%d although value %d was stored at t=%d (ttl=%s) and only %d distinct keys were ever stored (max_size=%d)%s" % (
+                    e["c"], e["key"], e["t"], snap[0], snap[1], ttl, len(latest), mx, how)
         elif e["kind"] == "done" and e["out"] == "ok":
             lk = caller.get(e["c"])
             if lk is not None:
-                latest[lk["key"]] = (e["k"], e["t"])
+                alllatest.setdefault(store_of(lk["svc"]), {})[lk["key"]] = (e["k"], e["t"], lk["svc"])
+    return None
+
+
+# ----------------------------------------------------------------------------- monitor 5: the listeners see every lookup
+
+def mon_listeners(case, lines, meta):
+    """`listen=1`: at every `probe events` the `on_hit` listener has fired once per lookup that did not reach the inner
+    service, the `on_miss` listener once per inner call (a miss calls the wrapped service exactly once, a hit does not),
+    whichever of the services built from the layer value served the request; the `on_eviction` listener has fired at
+    most once per stored response, and at least once per store of a new key into a store that was provably full"""
+    mx, cap, policy, ttl = _cfg(case)
+    store_of = _store_of(case)
+    evs, _ = _events(lines)
+    ref = _Ref(policy, cap, ttl)
+    hits = misses = oks = forced = 0
+    allc = {}
+    caller = {}
+    for e in evs:
+        if e["kind"] == "lookup":
+            caller[e["c"]] = e
+            hits += 1 if e["hit"] else 0
+            misses += 0 if e["hit"] else 1
+            six = store_of(e["svc"])
+            nxt = {st2 for hit, st2 in (ref.get(st, e["key"], e["t"]) for st in allc.get(six, {()})) if hit == e["hit"]}
+            allc[six] = nxt or {ref.get(st, e["key"], e["t"])[1] for st in allc.get(six, {()})}
+        elif e["kind"] == "done" and e["out"] == "ok":
+            lk = caller.get(e["c"])
+            if lk is None:
+                continue
+            oks += 1
+            six = store_of(lk["svc"])
+            res = [r for st in allc.get(six, {()}) for r in ref.insert(st, lk["key"], e["t"])]
+            if res and all(victim is not None for _, victim, _ in res) and mx >= 1:
+                forced += 1
+            allc[six] = {st2 for st2, _, _ in res}
+        elif e["kind"] == "probe":
+            kv = e["kv"]
+            if "hit" not in kv:
+                continue
+            h, m, ev = int(kv["hit"]), int(kv["miss"]), int(kv["evict"])
+            if h != hits or m != misses:
+                return ("probe at t=%d: the listeners counted %d hits and %d misses, the log shows %d lookups served without an inner "
+                        "call and %d inner calls" % (e["t"], h, m, hits, misses))
+            if not (forced <= ev <= oks):
+                return ("probe at t=%d: on_eviction fired %d times; %d responses were stored, %d of them new keys into a full store"
+                        % (e["t"], ev, oks, forced))
     return None
 
 
@@ -737,16 +936,47 @@ def mon_needless_miss(case, lines, meta):
 
 def transitions(case, lines, meta=None):
     mx, cap, policy, ttl = _cfg(case)
-    us = kvs(case["header"]).get("tick") == "us"
+    hdr = kvs(case["header"])
+    us = hdr.get("tick") == "us"
+    store_of = _store_of(case)
     evs, _ = _events(lines)
     tags = []
-    latest = {}          # key -> (v, t, svc)
+    latest = {}          # (store, key) -> (v, t, svc, pos)
     caller = {}
-    inflight = {}        # serial -> (key, position of the call)
+    inflight = {}        # serial -> ((store, key), position of the call)
+    handles = {}         # (service, handle) -> number of calls made on it
+    if "max" not in hdr:
+        tags.append("builder-default-max")
+    if "policy" not in hdr:
+        tags.append("builder-default-policy")
+    if hdr.get("via") in ("new", "default"):
+        tags.append("builder-via-" + hdr["via"])
+    for op in case["ops"]:
+        ws = op.split()
+        if ws and ws[0] == "arrive":
+            okv = dict(x.split("=", 1) for x in ws[2:] if "=" in x)
+            if "h" in okv:
+                hk = (okv.get("svc", "0"), okv["h"])
+                handles[hk] = handles.get(hk, 0) + 1
+                if handles[hk] == 2:
+                    tags.append("handle-reused" if okv["h"] != "0" else "service-value-reused")
+            if okv.get("lc") == "1":
+                tags.append("layer-clone-requested")
     for e in evs:
+        if e["kind"] == "probe":
+            if "hit" in e["kv"]:
+                tags.append("listeners-probed")
+                if int(e["kv"]["evict"]) > 0:
+                    tags.append("eviction-listener-fired")
+            continue
         if e["kind"] == "lookup":
             caller[e["c"]] = e
-            snap = latest.get(e["key"])
+            e["sk"] = (store_of(e["svc"]), e["key"])
+            snap = latest.get(e["sk"])
+            if not e["hit"] and snap is None and any(k == e["key"] and (ttl is None or e["t"] - v[1] <= ttl) for (_, k), v in latest.items()):
+                tags.append("private-cross-miss")   # fresh in the store of another service of the same plain layer value
+            if ttl == 0 and snap is not None:
+                tags.append("ttl0-hit-same-instant" if e["hit"] and e["t"] == snap[1] else "ttl0-miss-later" if not e["hit"] and e["t"] > snap[1] else "ttl0-other")
             if e["hit"]:
                 tags.append("hit")
                 if snap is not None and ttl is not None and e["t"] - snap[1] == ttl:
@@ -766,18 +996,18 @@ def transitions(case, lines, meta=None):
                         tags.append("us-miss-expired-by-less-than-1ms")
                 else:
                     tags.append("miss-evicted")
-                if any(k == e["key"] for k, _ in inflight.values()):
+                if any(k == e["sk"] for k, _ in inflight.values()):
                     tags.append("concurrent-miss-same-key")
-                inflight[e["serial"]] = (e["key"], e["pos"])
+                inflight[e["serial"]] = (e["sk"], e["pos"])
         elif e["kind"] == "done":
             lk = caller.get(e["c"])
             call = inflight.pop(e["k"], None)
             if e["out"] == "ok" and lk is not None:
-                snap = latest.get(lk["key"])
+                snap = latest.get(lk["sk"])
                 tags.append("store-new-key" if snap is None else "store-again")
                 if snap is not None and call is not None and snap[3] > call[1]:
                     tags.append("overwrite-by-later-completion")
-                latest[lk["key"]] = (e["k"], e["t"], lk["svc"], e["pos"])
+                latest[lk["sk"]] = (e["k"], e["t"], lk["svc"], e["pos"])
             elif e["out"] == "panic":
                 tags.append("panic-not-cached")
             else:
@@ -786,6 +1016,8 @@ def transitions(case, lines, meta=None):
             inflight.pop(e["k"], None)
             tags.append("dropped-pending")
     _, ptags = _policy_walk(case, lines)
+    if "max" not in hdr and any(t in ("evict-lru", "evict-lfu", "evict-fifo") for t in ptags):
+        tags.append("evict-at-default-max")      # the 101st key into a store built without a `max_size` call
     return tags + ptags
 
 
@@ -811,7 +1043,8 @@ SPECS = {
         "monitors": [("c10-hit-is-latest-right-key-unexpired", mon_hit_latest),
                      ("c10-size-bound", mon_size),
                      ("c10-victim-by-policy", mon_policy),
-                     ("c10-no-needless-miss", mon_needless_miss)],
+                     ("c10-no-needless-miss", mon_needless_miss),
+                     ("c10-listeners-count-lookups", mon_listeners)],
         "transitions": transitions,
         "nontrivial": nontrivial,
         "all_transitions": ["hit", "miss-cold", "miss-expired", "miss-evicted", "hit-at-ttl", "miss-at-ttl+1", "store-new-key",
@@ -819,9 +1052,12 @@ SPECS = {
                             "panic-not-cached", "dropped-pending", "shared-cross-hit", "evict-lru", "evict-lfu", "evict-fifo",
                             "lfu-tie", "lfu-candidates-pruned", "expired-removed-not-newest", "evict-after-expiry-restore",
                             "us-miss-expired-by-less-than-1ms", "us-hit-at-ttl-not-whole-ms", "evict-from-more-than-8-lru",
-                            "evict-from-more-than-8-lfu", "evict-from-more-than-8-fifo"],
-        "model_modules": ["TR.Model.Cache", "TR.Lemmas.Cache", "TR.Lemmas.CacheFifo", "TR.Lemmas.CacheTtl"],
-        "lean_files": ["TR.Model.Cache", "TR.Lemmas.Cache", "TR.Lemmas.CacheFifo", "TR.Lemmas.CacheTtl"],
+                            "evict-from-more-than-8-lfu", "evict-from-more-than-8-fifo",
+                            "ttl0-hit-same-instant", "ttl0-miss-later", "private-cross-miss", "handle-reused", "service-value-reused",
+                            "layer-clone-requested", "listeners-probed", "eviction-listener-fired", "builder-default-max", "builder-default-policy",
+                            "builder-via-new", "builder-via-default", "evict-at-default-max"],
+        "model_modules": ["TR.Model.Cache", "TR.Lemmas.Cache", "TR.Lemmas.CacheFifo", "TR.Lemmas.CacheTtl", "TR.Lemmas.CacheLayer"],
+        "lean_files": ["TR.Model.Cache", "TR.Lemmas.Cache", "TR.Lemmas.CacheFifo", "TR.Lemmas.CacheTtl", "TR.Lemmas.CacheLayer"],
         "sizes": (720, 40000),
         "rule": "seeded random op sequences (arrive key=1..6 / poll / drop / adv / settle) against the real CacheLayer and SharedCacheLayer "
                 "(two services), policy lru/lfu/fifo, max_size 1..4 (2% max_size=0), ttl none/1..10/20..60 ms, inner latency 0..20 ms with "
@@ -838,14 +1074,28 @@ SPECS = {
                 "7% big-cache scenarios (max_size 9..40, any policy, sometimes a TTL with staggered stamps): fill, unequal uses that "
                 "leave a unique LFU / LRU / FIFO victim (LFU counts 1,2,3 at the low end, 25% a two-way tie; ties wider than two are "
                 "narrowed before an eviction), 1-4 new keys (a new LFU entry is usually lifted above the next old one), read-back of "
-                "the entries next in line, of some others and of the presumed victims. "
+                "the entries next in line, of some others and of the presumed victims (8% of them without a max_size call: the "
+                "builder's default of 100 entries, the 101st key evicts). "
+                "TTL 0 (`Duration::ZERO`, a TTL, not 'no TTL') is a generated value: 8% of the TTLs of the random walks, 7% of the "
+                "microsecond TTLs, and 3% dedicated scenarios (requests at the same instant and 1 tick / many ticks later, ms and us). "
+                "Construction paths and handles, in every scenario family: 2-3 services built from ONE layer value, lazily, some from a "
+                "clone of the layer value taken after other services were used (`svc=k`, `lc=1`) - a SharedCacheLayer "
+                "(SharedCacheLayer::builder() or CacheLayer::shared()) must serve them from one store, a plain CacheLayer (40% of the "
+                "private random walks) from one store per service; calls on a fresh clone of the service, on the service value itself "
+                "again and again (`h=0`), on a clone taken once and reused (`h=j`); builder through builder() / new() / "
+                "Default::default(), with or without .name(), with or without max_size / eviction_policy calls (documented defaults "
+                "100 / LRU); 25% with on_hit / on_miss / on_eviction listeners (plain and shared builder) whose counts are compared "
+                "with the model at `probe events` points. "
                 "distinct = distinct implementation event log; non-trivial = at least one hit and an eviction, an expiry, a hit exactly at "
                 "the TTL, concurrent misses on one key or an overwrite by a later completion",
         "level_text": "Theorems TR.Props.C10.{size_bounded, keys_unique, store_refines_spec, stored_only_by_ok_completion, hit_is_latest, "
                       "hit_right_key, hit_no_inner_call, hit_result, miss_calls_once, only_arrive_calls, inner_call_at_most_once, "
                       "errors_not_cached, cached_values_are_ok_responses, completion_inserts, victim_lru, victim_fifo, victim_lfu, "
                       "no_eviction_otherwise, ttl_boundary_exact, expiry_is_unit_free, victim_lfu_unique_min, fifo_queue_step, fifo_survivors_keep_order, fifo_queue_in_creation_order, "
-                      "victim_fifo_oldest_stored, cap_is_max}: for every operation sequence (any key space, any interleaving of lookups, "
+                      "victim_fifo_oldest_stored, cap_is_max, ttl_zero_served_only_at_store_instant, zero_ttl_is_not_no_ttl, "
+                      "stores_step_independently, request_on_other_service_leaves_store_alone, poll_of_other_service_leaves_store_alone, "
+                      "shared_layer_one_store, private_layer_store_per_service, size_bounded_per_store, hit_is_latest_per_store, "
+                      "builder_defaults_ok}: for every operation sequence (any key space, any interleaving of lookups, "
                       "completions, cancellations and time advances, concurrent misses on one key), every policy, every max_size >= 1, TTL "
                       "absent or any value, every LFU victim choice: the store never exceeds max_size and holds no key twice; it refines the "
                       "specification map key -> (value, instant) of the latest Ok completion; a hit returns exactly that value, stored no "
@@ -856,7 +1106,11 @@ SPECS = {
                       "commutes with a change of unit); under FIFO every operation either leaves the queue slots alone, deletes exactly the "
                       "slot of the expired entry it read (front, middle or back; the others keep their order), or appends a newly created "
                       "entry at the back (after popping the front when full), so after any interleaving of expiry-removals and re-stores the "
-                      "victim is the front of the queue = the entry stored longest without interruption. Proved by three inductive invariants over all histories. The model is tied to the "
+                      "victim is the front of the queue = the entry stored longest without interruption; with a TTL of zero a stored key is served "
+                      "at the instant of its store only and misses as soon as it has any age (a different configuration from 'no TTL'); the "
+                      "stores of several services built from a plain CacheLayer value are independent (an operation steps the store it "
+                      "concerns and leaves every other store exactly as it was; each store satisfies every statement above on its own), a "
+                      "shared layer has one store that sees the whole history. Proved by three inductive invariants over all histories. The model is tied to the "
                       "real CacheLayer / SharedCacheLayer by line-for-line agreement of event logs on generated histories.",
         "level_note": LEVEL_NOTE,
         "trusted": ["lru::LruCache / HashMap / VecDeque semantics as transcribed in TR.Model.Cache (sampled by the correspondence check)",
@@ -864,6 +1118,9 @@ SPECS = {
                     "python diff/monitors"],
         "assumptions": ["one call()/one poll of one call future is atomic (the store mutex is never held across an await)",
                         "usize modelled as unbounded Nat; TTL and all instants are whole clock ticks (1 ms, or 1 us in `tick=us` cases)",
-                        "theorems assume max_size >= 1 (the property's quantifier)"],
+                        "theorems assume max_size >= 1 (the property's quantifier)",
+                        "several services: the stores are modelled as independent copies of the single-store model, each run on the "
+                        "operations that concern it; the inner-call serial numbers of a case are a renaming of each store's own serials "
+                        "(done by the driver); listeners (hit/miss/eviction counts) are tracked by the driver only, not by the theorems"],
     },
 }
